@@ -331,12 +331,7 @@ def run_check(pid, tier, seed, replay=None):
     # 1. translator
     rc, out = regen_tables()
     log.append(out.strip())
-    if rc != 0:
-        mine = getattr(plugin, 'TABLES', None)     # e.g. ["t_filter"]; None = every table concerns this property
-        errs = re.findall(r'^TABLE-ERROR (\S+): (.*)$', out, re.M)
-        errs = [e for e in errs if mine is None or e[0] in mine or e[0][2:] in mine or ('T_' + e[0][2:]) in mine]
-        if errs or not re.search(r'^TABLE-ERROR', out, re.M):
-            broken.append(('translator-abort', 'tools/gen_tables.py', (out.strip() if not errs else '\n'.join('%s: %s' % e for e in errs))[-1500:]))
+    translator_out = out if rc != 0 else None
 
     # 2. proof obligations
     props_files = plugin.COQ_PROPS if isinstance(plugin.COQ_PROPS, (list, tuple)) else [plugin.COQ_PROPS]
@@ -363,6 +358,15 @@ def run_check(pid, tier, seed, replay=None):
         bad_th = set(re.match(r'theorem (\S+?):? ', f).group(1).rstrip(':') for f in fails if f.startswith('theorem '))
         discharged = len([t for t in theorems if t in assum and t not in bad_th])
     closure = dep_closure(list(props_files) + [t[:-1] for t in extra_targets])
+    if translator_out is not None:
+        # tables this property depends on: those named by the plugin plus every Generated/T_x.v in the dependency closure
+        mine = set(getattr(plugin, 'TABLES', None) or [])
+        mine |= set('t_' + os.path.basename(f)[2:-2] for f in closure if f.startswith('Generated/T_'))
+        errs = re.findall(r'^TABLE-ERROR (\S+): (.*)$', translator_out, re.M)
+        errs = [e for e in errs if e[0] in mine]
+        if errs or not re.search(r'^TABLE-ERROR', translator_out, re.M):
+            broken.insert(0, ('translator-abort', 'tools/gen_tables.py',
+                              (translator_out.strip() if not errs else '\n'.join('%s: %s' % e for e in errs))[-1500:]))
     hyg = hygiene(closure)
     for h in hyg:
         broken.append(('broken-obligation', 'hygiene', h))
